@@ -16,6 +16,7 @@ import MicroHttp.Response
 import MicroHttp.Conn
 import MicroHttp.Display
 import MicroHttp.Server
+import MicroHttp.Router
 namespace MicroHttp.Tables
 open MicroHttp
 
@@ -363,6 +364,91 @@ theorem client_enqueue :
            | exact ⟨_, rfl, rfl, rfl, rfl⟩
            | exact ⟨c, rfl, rfl, hs, hn⟩
            | exact ⟨_, rfl, by simp [hs], by simp [hs], by simp [hn]⟩)
+
+/-! ### the router and `Uri::get_abs_path`, translated from router.rs / request.rs (obligations of C17 and C16) -/
+
+theorem method_to_str : Agrees Extracted.methodToStr (Method.all.map fun m => (methodName m, m.toStr)) := by decide
+
+/-- the key under which `add_route` files a handler -/
+theorem router_add_key :
+    Extracted.routerAddKey = none ∨
+    ∃ f, Extracted.routerAddKey = some f ∧ ∀ (m : Method) (pre path : List Byte), f m pre path = routeKey m pre path := by
+  first
+    | exact Or.inl rfl
+    | (right
+       refine ⟨_, rfl, ?_⟩
+       intro m pre path
+       simp [routeKey, COLON, List.append_assoc])
+
+/-- `add_route` as a whole: the key, refused exactly when occupied (with that key, nothing changed), else inserted -/
+theorem router_add :
+    Extracted.routerAddKey = none ∨ Extracted.routerAddShape = none ∨
+    ∃ k g, Extracted.routerAddKey = some k ∧ Extracted.routerAddShape = some g ∧
+      ∀ (r : Routes) (m : Method) (path : List Byte) (h : Nat),
+        let key := k m r.prefix_ path
+        let occ := (lookupRoute r.routes key).isSome
+        r.addRoute m path h =
+          (if (g occ).1 then { r with routes := r.routes ++ [(key, h)] } else r,
+           if (g occ).2 then .ok () else .error key) := by
+  first
+    | exact Or.inl rfl
+    | exact Or.inr (Or.inl rfl)
+    | (right; right
+       refine ⟨_, _, rfl, rfl, ?_⟩
+       intro r m path h
+       have hk : (m.toStr ++ [0x3A] ++ r.prefix_ ++ path : List Byte) = routeKey m r.prefix_ path := by
+         simp [routeKey, COLON, List.append_assoc]
+       simp only [hk]
+       unfold Routes.addRoute
+       cases hl : lookupRoute r.routes (routeKey m r.prefix_ path) <;> simp [hl])
+
+/-- the key `handle_http_request` looks up -/
+theorem router_dispatch_key :
+    Extracted.routerDispatchKey = none ∨
+    ∃ f, Extracted.routerDispatchKey = some f ∧ ∀ (r : Routes) (req : Request),
+      r.dispatch req = lookupRoute r.routes (f req.line.method (getAbsPath req.line.uri)) := by
+  first
+    | exact Or.inl rfl
+    | (right
+       refine ⟨_, rfl, ?_⟩
+       intro r req
+       simp [Routes.dispatch, COLON, List.append_assoc])
+
+/-- what `handle_http_request` makes of the handler's response (or of the absence of a handler) -/
+theorem router_handle :
+    Extracted.routerHandle = none ∨
+    ∃ f, Extracted.routerHandle = some f ∧ ∀ (r : Routes) (req : Request) (hr : Nat → Response),
+      r.handle req hr = f r ((r.dispatch req).map hr) := by
+  first
+    | exact Or.inl rfl
+    | (right
+       refine ⟨_, rfl, ?_⟩
+       intro r req hr
+       unfold Routes.handle
+       cases r.dispatch req <;> rfl)
+
+theorem fromFirstSlash_eq_dropWhile (l : List Byte) : fromFirstSlash l = l.dropWhile (· != 47) := by
+  induction l with
+  | nil => rfl
+  | cons b bs ih =>
+    unfold fromFirstSlash
+    by_cases hb : b = 47
+    · subst hb; simp [SLASH, List.dropWhile]
+    · have h1 : (b == SLASH) = false := by simp [SLASH, hb]
+      have h2 : (b != 47) = true := by simp [hb]
+      simp [h1, List.dropWhile, h2, ih]
+
+/-- `Uri::get_abs_path` -/
+theorem uri_abs_path :
+    Extracted.uriAbsPath = none ∨
+    ∃ f, Extracted.uriAbsPath = some f ∧ ∀ uri : List Byte, f uri = getAbsPath uri := by
+  first
+    | exact Or.inl rfl
+    | (right
+       refine ⟨_, rfl, ?_⟩
+       intro uri
+       simp only [getAbsPath, fromFirstSlash_eq_dropWhile]
+       rfl)
 
 /-! Non-vacuity is reported per run: `check` records which items the translator found (`extracted` in the evidence);
     on the unchanged tree all of them are. -/
